@@ -5,11 +5,12 @@ reg("C24",
               "the interval in force and the start/stop/count requests",
     rule="state = byte image of the link layer object (incl. channel cursor, 0..10 ms perturbation generator, start/stop/count flags) + reference model; "
          "transition = one real call (run, adv_timeout, start_advertising(), start_advertising(1|2), stop_advertising, add/remove channel 37|38|39, "
-         "advertising_interval_ms(20|100|10240|19|10241)); classes = (map, channel, position in event), every observed delay value, stop/count outcomes",
-    bound="both tiers: all reachable states (fixpoint, depth ~25) per configuration; quick: 5 configurations (variable map x {advertising_interval<20>, variable interval incl. 20/100/10240 ms}, "
-          "fixed all-channel map, auto start x variable map, multi-type advertiser); thorough: + advertising_interval<100> (default), <10240>, all defaults; states behind a failed oracle are not expanded",
+         "advertising_interval_ms(20|21|33|100|1001|10240|19|10241), advertising_interval(delta_time(33333us))), redundant adds/removes included; classes = (map, channel, position in event), every observed delay value, stop/count outcomes",
+    bound="both tiers: all reachable states (fixpoint, depth ~25) per configuration; quick: 5 configurations (variable map x {advertising_interval<21>, variable interval incl. 20/21/33/100/1001/10240 ms and 33.333 ms}, "
+          "fixed all-channel map, auto start x variable map, multi-type advertiser); thorough: + advertising_interval<20>, <100> (default), <10240>, all defaults; states behind a failed oracle are not expanded",
     units=[dict(src="harness/C24_adv_channels.cpp", link_ll=True,
-                variants=[dict(name="vmap_i20", defs=["C24_CFG=1"]),
+                variants=[dict(name="vmap_i21", defs=["C24_CFG=9"]),
+                          dict(name="vmap_i20", defs=["C24_CFG=1"], thorough_only=True),
                           dict(name="vmap_i100", defs=["C24_CFG=2"], thorough_only=True),
                           dict(name="vmap_i10240", defs=["C24_CFG=3"], thorough_only=True),
                           dict(name="vmap_ivar", defs=["C24_CFG=4"]),
@@ -23,6 +24,8 @@ reg("C24",
         "'It is not supported to change the channel map during advertising'; an empty map is allowed transiently but never while starting (documented)",
         "start_advertising(n): public doc says n advertising events, implementation comment and tests (start_advertising(42) => 42 PDUs) say n PDUs; "
         "demanded is only what both readings share: not stopped before n PDUs, never more than n advertising events (with a one-channel map both coincide)",
+        "the reference channel map is an independent set (remove = set difference, add = union, both idempotent); the configured interval is taken exactly "
+        "(the unchanged code stores it in microseconds without rounding), so spacing below the configured value is a violation also for values that are no multiple of 0.625 ms",
         "when == 0 (delta_time::now()) is read as 'immediately'; the interval + [0,10] ms is measured from the last PDU of the previous event as the "
         "scheduled_radio T0 rule defines it; the pseudo-random delay is only checked to lie in [0,10] ms (all 11 values are observed)",
         "a start from idle must begin an advertising event on the lowest enabled channel; scheduling a second advertisement while the radio still holds one "
